@@ -343,6 +343,10 @@ builtin_exec(spif_charptr_t param)
     fd = spiftool_temp_file(OutFile, sizeof(OutFile));
     if ((fd < 0) || fchmod(fd, (S_IRUSR | S_IWUSR | S_IRGRP | S_IROTH))) {
         libast_print_error("Unable to create unique temporary file for \"%s\" -- %s\n", param, strerror(errno));
+        if (fd >= 0) {
+            close(fd);
+            remove((char *) OutFile);
+        }
         return ((spif_charptr_t) NULL);
     }
 
@@ -350,6 +354,8 @@ builtin_exec(spif_charptr_t param)
     if (maxlen > CONFIG_BUFF) {
         libast_print_error("Parse error in file %s, line %lu:  Cannot execute command, line too long\n",
                            file_peek_path(), file_peek_line());
+        close(fd);
+        remove((char *) OutFile);
         return ((spif_charptr_t) NULL);
     }
     strcpy((char *) Command, (char *) param);
@@ -364,16 +370,18 @@ builtin_exec(spif_charptr_t param)
             Output = (spif_charptr_t) MALLOC(fsize + 1);
             fread(Output, fsize, 1, fp);
             Output[fsize] = 0;
-            fclose(fp);
-            remove((char *) OutFile);
             Output = spiftool_condense_whitespace(Output);
         } else {
             libast_print_warning("Command at line %lu of file %s returned no output.\n",
                                  file_peek_line(), file_peek_path());
         }
+        fclose(fp);
     } else {
         libast_print_warning("Output file %s could not be created.  (line %lu of file %s)\n", NONULL(OutFile), file_peek_line(), file_peek_path());
+        close(fd);
     }
+    /* The output file has served its purpose whether or not the command wrote anything. */
+    remove((char *) OutFile);
     FREE(Command);
 
     return (Output);
